@@ -37,6 +37,18 @@ def _gen_vectors(ctx, fam, npa, nra, deviations, simulate, depth, label):
     return out
 
 
+FIXED_ATTR = {"kind": "int", "loc": "body", "mode": "required", "rule": "none", "nest": "direct"}       # HTTPTransport.tla FixedAttr / FixedVal
+
+
+def expect_violation_on_case(ctx, case, deviation, fam="res", label=None):
+    """vacuity guard on one given case (Cases_HTTPTransport): with the deviation enabled TLC must find a counterexample
+    (for what needs more attributes than the exhaustive model enumerates)"""
+    c = dict({"pa": [FIXED_ATTR], "pv": [hg.V("int", 3)], "ra": [FIXED_ATTR], "rv": [hg.V("int", 3)], "tagged": False, "tags": 0}, **case)
+    return ctx.mc_expect_violation("mc/Cases_HTTPTransport", "mc/Cases_HTTPTransport.cfg",
+                                   consts={"NPA": len(c["pa"]), "NRA": len(c["ra"]), "Family": '"%s"' % fam, "Deviations": '{"%s"}' % deviation},
+                                   files={"cases.ndjson": json.dumps(c) + "\n"}, label=label or ("MC dev " + deviation), workers=2)
+
+
 def expect_violations(ctx, runs):
     """the vacuity guards of a check (with a named deviation enabled TLC must find a counterexample), side by side:
     runs = [(consts, label)]"""
@@ -68,15 +80,17 @@ def combine_cases(ctx, vectors1, n, seed, fam="req", mode="random"):
         # the second / both tags
         tagv = [v for v in vectors1 if tag_attr(v[key][0])]
         hit = lambda v: not hg.is_absent(v[val][0]) and v[val][0]["n"] == 3 and v[val][0]["s"] == "plain"
-        byshape = {}
+        byshape = {}       # shape -> [values that do not match the tag, values that match, unset]
         for v in tagv:
-            byshape.setdefault(core.canon(v[key][0]), [[], []])[1 if hit(v) else 0].append(v)
-        shapes = sorted(k for k, (miss, hits) in byshape.items() if miss and hits)
-        pairs = [(x, y, t) for x in shapes for y in shapes for t in (2, 3)]
+            byshape.setdefault(core.canon(v[key][0]), [[], [], []])[2 if hg.is_absent(v[val][0]) else 1 if hit(v) else 0].append(v)
+        shapes = sorted(k for k, (miss, hits, unset) in byshape.items() if miss and hits)
+        pairs = [(x, y, t) for x in shapes for y in shapes for t in (1, 2, 3)]       # (1: one tagged response, a second attribute beside the tag attribute)
         rnd.shuffle(pairs)
         for x, y, t in pairs[:n]:
-            for hx in (0, 1):
-                for hy in (0, 1):
+            for hx in (0, 1, 2):
+                for hy in (0, 1, 2):
+                    if not byshape[x][hx] or not byshape[y][hy]:
+                        continue        # (an attribute that cannot be left unset)
                     a, b = rnd.choice(byshape[x][hx]), rnd.choice(byshape[y][hy])
                     c = {"pa": a["pa"], "ra": a["ra"], "tagged": True, "tags": t, "pv": a["pv"], "rv": a["rv"]}
                     c[key] = a[key] + b[key]
@@ -343,7 +357,7 @@ def short_case(c):
 # ------------------------------------------------------------------ explaining mismatches by named deviations
 DEVIATIONS = ["param.empty_string_is_absent", "cookie.value_sanitized", "client.path_not_escaped", "mux.double_unescape",
               "validate.absent_collection_length", "response.header_array_joined", "validate.exclusive_max_unchecked",
-              "decode.required_cookie_drops_param_errors", "decode.mapparams_prefix_expected", "validate.map_value_required_unchecked"]
+              "decode.required_cookie_drops_param_errors", "decode.mapparams_prefix_expected", "validate.map_value_required_unchecked", "response.tagged_header_unguarded"]
 
 
 def case_key(v):
@@ -557,11 +571,23 @@ def validate_cases(ctx, cases, prop, skip_ids=(), maxfail=5, label="trace", ex=N
 
 
 def trace_selftest(ctx, cases):
-    """Corrupt one recorded observation of an accepted exchange: TLC must reject exactly there."""
+    """Corrupt one recorded observation of an accepted exchange: TLC must reject exactly there.
+    The exchanges are taken from those validate_cases validates: executed cases that behaved as the mechanism without any
+    deviation does and that the oracle wants delivered (a case set aside under a named deviation - e.g. an invalid value
+    that reached user code under validate.exclusive_max_unchecked - is rightly rejected by the trace specification on its
+    own, before the corrupted line).  The uncorrupted trace is validated first: it must be accepted."""
     import os
-    good = [c for c in cases if c["obs"]["invoked"] and c["obs"]["delivered"] and c["obs"]["delivered"][0] == "sent" and not c["obs"]["anomalies"]][:20]
-    if not good:
+    good = [c for c in cases if c["obs"]["invoked"] and c["obs"]["delivered"] and c["obs"]["delivered"][0] == "sent" and not c["obs"]["anomalies"]
+            and c["v"]["allow"]["mustInvoke"] and obs_sig(c["v"], c["obs"]) == mech_sig(c["v"]) and trace_lines(c)][:20]
+    if len(good) < 11:
         return
+    clean = [line for c in good for line in trace_lines(c)]
+    d = ctx.subdir("selftest-clean")
+    p = os.path.join(d, "trace.ndjson")
+    open(p, "w").write("".join(json.dumps(x) + "\n" for x in clean))
+    ok, hwm, _ = ctx.trace_validate("trace/Trace_HTTPTransport", "trace/Trace_HTTPTransport.cfg", p, label="selftest-clean")
+    if not ok:
+        raise core.Infra("trace self-test: the uncorrupted trace of %d validated exchanges is rejected at line %s: %s" % (len(good), hwm, json.dumps(clean[hwm - 1] if hwm else None)[:600]))
     lines, tgt = [], None
     for k, c in enumerate(good):
         b = trace_lines(c)
